@@ -30,7 +30,14 @@ import (
 	_ "verif/sim/specs"
 )
 
-const verifRoot = "/verif"
+// verifRoot is where evidence, replays and the engine sources live: /verif, or the directory check.sh
+// runs from (VERIF_ROOT; lets `vp run` snapshots of /verif work on their own copy).
+var verifRoot = func() string {
+	if r := os.Getenv("VERIF_ROOT"); r != "" {
+		return r
+	}
+	return "/verif"
+}()
 
 var goEnv = []string{"GOFLAGS=-mod=mod", "GOPROXY=off", "GOSUMDB=off", "GOTOOLCHAIN=local", "CGO_ENABLED=1"}
 
